@@ -8,7 +8,7 @@ import (
 
 func init() {
 	Register("C06", func(rc *RunCtx) {
-		cfg := GenQCfg(rc.Tape, QProfile{ShapeFaults: true})
+		cfg := GenQCfg(rc.Tape, QProfile{ShapeFaults: true, Corrupt: true})
 		qr := RunQueue(rc, cfg)
 		CheckC06(rc, qr)
 		finishQ(rc, qr)
@@ -122,7 +122,11 @@ func CheckC06(rc *RunCtx, qr *QRun) {
 	noaction := map[string]bool{}
 	for _, b := range qr.W.Srv.Batches {
 		for oid, sh := range b.Shapes {
-			if sh == "noaction" {
+			// A deliberately corrupted response may have lost the
+			// actions or the error of any entry: what the client saw
+			// for the objects of that batch may legitimately be "no
+			// transfer needed". Relaxed for those objects only.
+			if sh == "noaction" || b.Corrupt != "" {
 				noaction[oid] = true
 			}
 		}
